@@ -3,7 +3,7 @@
 (* Trace validation of executions recorded from the real code under the    *)
 (* deterministic scheduler (harness/sched.py).  One case = one execution:  *)
 (*  [threads |-> n, reqs |-> k, own |-> <<<<t, r>>, ...>>,                  *)
-(*   fail |-> <<<<t, r>>, ...>>,                                            *)
+(*   fail |-> <<<<t, r>>, ...>>, start |-> value of the counter at the beginning,  *)
 (*   ev |-> << [t, k |-> "load"|"store"|"acq"|"rel"|"send"|"fail", v] >>]   *)
 (* A-verdict (property C16): the ids that reached the opener.              *)
 (* I-verdict (conformance): the event sequence is a behaviour of ReqId.    *)
@@ -15,11 +15,11 @@ VARIABLES tid, l, counter, holder, pc, nxt, tmp, done, sent, own, failing, lost,
 vars == <<tid, l, counter, holder, pc, nxt, tmp, done, sent, own, failing, lost, verdict>>
 C == Cases[tid]
 Threads == 1 .. NT
-R == INSTANCE ReqId WITH OwnChoices <- {{}}, FailChoices <- {{}}
+R == INSTANCE ReqId WITH OwnChoices <- {{}}, FailChoices <- {{}}, Start <- 0
 OwnId == own
 
 Init == /\ tid \in 1 .. Len(Cases) /\ l = 1 /\ verdict = "run"
-        /\ counter = 0 /\ holder = 0
+        /\ counter = Cases[tid].start /\ holder = 0
         /\ pc = [t \in Threads |-> "check"]
         /\ nxt = [t \in Threads |-> 0] /\ tmp = [t \in Threads |-> 0]
         /\ done = [t \in Threads |-> 0] /\ sent = <<>>
@@ -42,7 +42,7 @@ Sends == SelectSeq(C.ev, LAMBDA e : e.k = "send")
 Gen == SelectSeq(Sends, LAMBDA e : e.v >= 0)              \* v = -1: caller supplied id sent unchanged, -2: altered
 NFail == Len(SelectSeq(C.ev, LAMBDA e : e.k = "fail"))  \* requests that failed after their number was handed out
 AOK == /\ \A i, j \in 1 .. Len(Gen) : i # j => Gen[i].v # Gen[j].v
-       /\ { Gen[i].v : i \in 1 .. Len(Gen) } \subseteq 0 .. (Len(Gen) + NFail - 1)   \* no gaps but the lost numbers
+       /\ { Gen[i].v : i \in 1 .. Len(Gen) } \subseteq C.start .. (C.start + Len(Gen) + NFail - 1)   \* no gaps but the lost numbers
        /\ \A i \in 1 .. Len(Sends) : Sends[i].v # -2
        /\ NFail = Len(C.fail)
        /\ Len(Gen) = NT * Reqs - Len(C.own) - NFail
